@@ -55,9 +55,9 @@ Definition valid_key (k : string) : bool :=
   negb (String.eqb k "") && negb (String.eqb k ".") && negb (has_char "/"%char k).
 
 Definition is_number (v : mval) : option sc := match v with MSc x => Some x | MNp x => Some x | _ => None end.
-(* isinstance(v, Number): Python bool/int/float/complex and numpy numbers -- but not numpy.bool_ *)
+(* isinstance(v, (Number, np.bool_)): Python bool/int/float/complex and numpy scalars *)
 Definition isinstance_number (v : mval) : bool :=
-  match v with MSc _ => true | MNp (SB _) => false | MNp _ => true | _ => false end.
+  match v with MSc _ => true | MNp _ => true | _ => false end.
 Fixpoint all_numbers (xs : list mval) : option (list sc) :=
   match xs with [] => Some []
   | v :: r => match is_number v, all_numbers r with Some x, Some l => Some (x :: l) | _, _ => None end end.
@@ -112,7 +112,7 @@ Fixpoint save_item (v : mval) : res item :=
   | MStr s => if has_char "000"%char s then Err EH5 else Ok (IData "string" (DsBytes s))
   | MSc (SB b) => Ok (IData "bool" (DsSc (SB b)))
   | MSc x => if sc_storable x then Ok (IData "number" (DsSc x)) else Err ENumpy
-  | MNp (SB _) => Err EOther
+  | MNp (SB b) => Ok (IData "bool" (DsSc (SB b)))
   | MNp x => Ok (IData "number" (DsSc x))          (* dtype = type(v): a numpy scalar is stored as its own dtype *)
   | MArr dt sh t => if h5_dtype_ok dt then Ok (IData "array" (DsArr dt sh t)) else Err EH5
   | MTuple xs => save_seq true xs
